@@ -14,7 +14,8 @@
    inside `while True:` gets a state variable but no tick call (C18_tick_injected_refuted,
    finding F-C18-animate-in-loop-never-ticked). *)
 From Coq Require Import ZArith List Bool.
-From RV Require Import Host.LCDAnim Device.DLCDAnim Proofs.LCDAnimP.
+From RV Require Import Host.LCDAnim Device.DLCDAnim Proofs.LCDAnimP Proofs.LCDAnimP2.
+From RV Require Import Gen.LcdAnimTables Proofs.LCDAnimG.
 Import ListNotations.
 Open Scope Z_scope.
 
@@ -110,6 +111,49 @@ Theorem C18_setup_site_ticked :
   In (n, count_name n pre, sty) (loop_ticks setup loop) /\ NoDup (loop_ticks setup loop).
 Proof. exact setup_site_ticked. Qed.
 Print Assumptions C18_setup_site_ticked.
+
+(* ---------------------------------------------------- several animations on one display (device) *)
+
+(* the i-th lcd.animate call of a display, ticked together with all the others over any history, ends
+   in exactly the state of the single-animation run: the per-animation theorems above therefore hold
+   for every animation of every display (displays share no state: one object and one set of state
+   variables each) *)
+Theorem C18_device_history_decomposes :
+  forall (cols : Z) (calls : list dcall) (nows : list Z) (i : nat)
+         (sty : style) (row : Z) (text : list Z) (speed : Z) (lp : bool),
+  nth_error calls i = Some (sty, row, text, speed, lp) ->
+  nth_error (fst (drun_all cols (fst (dstart_all cols calls)) nows)) i =
+  Some (sty, fst (drun1 sty cols (fst (dstart sty cols row text speed lp)) nows)).
+Proof. exact device_history_decomposes. Qed.
+Print Assumptions C18_device_history_decomposes.
+
+(* ... and the cell writes of pass k are, in registration order, what each animation writes in its
+   own k-th tick *)
+Theorem C18_display_pass_events :
+  forall (cols : Z) (anims : list (style * dstate)) (nows : list Z) (k : nat),
+  nth k (snd (drun_all cols anims nows)) [] =
+  flat_map (fun a => nth k (map snd (snd (drun1 (fst a) cols (snd a) nows))) []) anims.
+Proof. exact drun_all_events. Qed.
+Print Assumptions C18_display_pass_events.
+
+(* setup(): no delay, every cell in the row of one of the started animations, inside the width *)
+Theorem C18_display_start_geometry :
+  forall (cols : Z) (calls : list dcall), 1 <= cols ->
+  dno_delay (snd (dstart_all cols calls)) /\
+  forall r c ch, In (DW r c ch) (snd (dstart_all cols calls)) ->
+    In r (rows_of (fst (dstart_all cols calls))) /\ 0 <= c < cols.
+Proof. exact dstart_all_geometry. Qed.
+Print Assumptions C18_display_start_geometry.
+
+(* every loop() pass of a display with any number of animations: no delay, every cell in the row of
+   one of its animations, inside the width *)
+Theorem C18_display_run_geometry :
+  forall (cols : Z) (anims : list (style * dstate)) (nows : list Z), 1 <= cols ->
+  Forall (fun ev => dno_delay ev /\
+                    forall r c ch, In (DW r c ch) ev -> In r (rows_of anims) /\ 0 <= c < cols)
+         (snd (drun_all cols anims nows)).
+Proof. exact display_run_geometry. Qed.
+Print Assumptions C18_display_run_geometry.
 
 (* ================================================================== host (Reduino.Displays.LCD) *)
 
@@ -216,6 +260,24 @@ Theorem C18_host_run_events :
 Proof. exact hsteps_events. Qed.
 Print Assumptions C18_host_run_events.
 
+(* ================================================================== tables re-read from /repo *)
+
+(* over coq/Gen/LcdAnimTables.v, regenerated from the current source on every run: the host class, the
+   parser and the emitter know exactly the model's four styles; every style has a start and a tick
+   helper, defined once; start helpers never read millis(); every tick helper reads it once and begins
+   with the inactive test + the rate-limiter text that [dgate] transcribes; no helper, nor any __redu_*
+   function a helper calls, contains delay()/delayMicroseconds() or a while/do/goto *)
+Theorem C18_tables_complete :
+  (forall name, In name host_styles <-> exists s, name = style_name s) /\
+  (forall name, In name parser_styles <-> exists s, name = style_name s) /\
+  (forall name, In name (map fst start_funcs) <-> exists s, name = style_name s) /\
+  (forall name, In name (map fst tick_funcs) <-> exists s, name = style_name s) /\
+  (forall s, exists st tk, In (style_name s, st) start_funcs /\ In (style_name s, tk) tick_funcs /\
+                           start_ok st = true /\ tick_ok tk = true) /\
+  (forall f, In f helper_facts -> fact_nonblocking f = true).
+Proof. exact tables_complete. Qed.
+Print Assumptions C18_tables_complete.
+
 (* ================================================================== non-vacuity *)
 
 (* a tick schedule with early, equal, on-time and late ticks satisfies the clock hypothesis *)
@@ -241,6 +303,17 @@ Example C18_ex_device_bounce_frame :
   get_row 0 (apply_devs (snd (dtick Bounce 3 5 st0)) (blank_matrix 3 2)) = [32; 32; 32].
 Proof. exact ex_device_bounce_frame. Qed.
 Print Assumptions C18_ex_device_bounce_frame.
+
+(* device: a looping scroll and a non-looping blink share an 8x2 display; all four passes draw, the
+   blink ends, the scroll does not *)
+Example C18_ex_device_two_animations :
+  let calls := [(Scroll, 0, [65; 66], 0, true); (Blink, 1, [72; 105], 100, false)] in
+  let r := drun_all 8 (fst (dstart_all 8 calls)) [5; 50; 105; 300] in
+  map (fun a => d_active (snd a)) (fst r) = [true; false] /\
+  map (fun ev => negb (Nat.eqb (length ev) 0)) (snd r) = [true; true; true; true] /\
+  rows_of (fst r) = [0; 1].
+Proof. exact ex_device_two_animations. Qed.
+Print Assumptions C18_ex_device_two_animations.
 
 (* host: a reachable 8x2 object with two animations (one looping) runs a tick history; the hypotheses
    of the host theorems are met by it, the non-looping typewriter ends, the looping scroll does not *)
